@@ -114,8 +114,11 @@ def create_dummy_in_mem_geff(
         directed: Whether the graph is directed
         num_nodes: Number of nodes to generate
         num_edges: Number of edges to generate
-        extra_node_props: Dict mapping property names to dtypes for extra node properties
-        extra_edge_props: Dict mapping property names to dtypes for extra edge properties
+        extra_node_props: Dict mapping property names to dtypes for extra node properties.
+            A name that this function generates itself (an included axis, "var_length" with
+            include_varlength, "sparse_prop" with include_missing) raises a ValueError.
+        extra_edge_props: Dict mapping property names to dtypes for extra edge properties.
+            "sparse_prop" together with include_missing raises a ValueError.
         include_t: Whether to include time dimension
         include_z: Whether to include z dimension
         include_y: Whether to include y dimension
@@ -220,6 +223,16 @@ def create_dummy_in_mem_geff(
     if edges.shape[0] == 0:
         edges = edges.reshape((0, 2))
 
+    # Names of the node properties this function generates itself (the included axes and the
+    # flag-controlled properties): an extra property of the same name would silently replace
+    # the coordinate (leaving the axis min/max stale) or be replaced, so it is rejected.
+    generated_node_props = list(node_props)
+    if include_varlength:
+        generated_node_props.append("var_length")
+    if include_missing:
+        generated_node_props.append("sparse_prop")
+    generated_edge_props = ["sparse_prop"] if include_missing else []
+
     # Generate extra node properties
     if extra_node_props is not None:
         # Validate input is a dict
@@ -230,6 +243,11 @@ def create_dummy_in_mem_geff(
         for prop_name, prop_value in extra_node_props.items():
             if not isinstance(prop_name, str):
                 raise ValueError(f"extra_node_props keys must be strings, got {type(prop_name)}")
+            if prop_name in generated_node_props:
+                raise ValueError(
+                    f"extra_node_props[{prop_name}] clashes with the generated node property "
+                    f"of the same name (generated: {generated_node_props})"
+                )
 
             # Check if value is a string (dtype) or numpy array
             if isinstance(prop_value, str):
@@ -289,6 +307,11 @@ def create_dummy_in_mem_geff(
         for prop_name, prop_value in extra_edge_props.items():
             if not isinstance(prop_name, str):
                 raise ValueError(f"extra_edge_props keys must be strings, got {type(prop_name)}")
+            if prop_name in generated_edge_props:
+                raise ValueError(
+                    f"extra_edge_props[{prop_name}] clashes with the generated edge property "
+                    f"of the same name (generated: {generated_edge_props})"
+                )
 
             # Check if value is a string (dtype) or numpy array
             if isinstance(prop_value, str):
@@ -410,8 +433,11 @@ def create_mock_geff(
         directed: Whether the graph is directed
         num_nodes: Number of nodes to generate
         num_edges: Number of edges to generate
-        extra_node_props: Dict mapping property names to dtypes for extra node properties
-        extra_edge_props: Dict mapping property names to dtypes for extra edge properties
+        extra_node_props: Dict mapping property names to dtypes for extra node properties.
+            A name that this function generates itself (an included axis, "var_length" with
+            include_varlength, "sparse_prop" with include_missing) raises a ValueError.
+        extra_edge_props: Dict mapping property names to dtypes for extra edge properties.
+            "sparse_prop" together with include_missing raises a ValueError.
         include_t: Whether to include time dimension
         include_z: Whether to include z dimension
         include_y: Whether to include y dimension
